@@ -209,7 +209,37 @@ fn gen_item(d: &mut Dec, p: &GenParams, depth: usize) -> ClassItem {
     }
 }
 
+/// A union of 8-24 literals and ranges, many of them overlapping or nested (`a-z` next to `e`,
+/// `0-9` next to `3-5`): what identifier and number classes of real grammars look like.
+fn gen_wide_union(d: &mut Dec) -> ClassSet {
+    let n = 8 + d.below(17);
+    let mut items = Vec::with_capacity(n);
+    for _ in 0..n {
+        items.push(match d.weighted(&[3, 4, 3, 2]) {
+            0 => {
+                let (lo, hi) = *d.pick(&[('a', 'z'), ('A', 'Z'), ('0', '9'), ('a', 'f'), ('A', 'F'), ('\u{80}', '\u{7FF}'), (' ', '~')]);
+                ClassItem::Range(lo, hi)
+            }
+            1 => {
+                let c = *d.pick(&['e', 'E', 'x', 'f', 'a', 'z', '_', '$', '-', '+', '0', '5', '9', 'é', 'b', 'c']);
+                let f = gen_form(d, c);
+                ClassItem::Lit(c, f)
+            }
+            2 => {
+                let c = gen_char(d);
+                let f = gen_form(d, c);
+                ClassItem::Lit(c, f)
+            }
+            _ => gen_range(d),
+        });
+    }
+    ClassSet::Items(items)
+}
+
 fn gen_items(d: &mut Dec, p: &GenParams, depth: usize) -> ClassSet {
+    if d.chance(10) {
+        return gen_wide_union(d);
+    }
     let n = 1 + d.weighted(&[5, 4, 2]);
     ClassSet::Items((0..n).map(|_| gen_item(d, p, depth)).collect())
 }
@@ -346,7 +376,82 @@ pub fn gen_rx(d: &mut Dec, p: &GenParams, depth: usize, budget: &mut usize) -> R
     }
 }
 
+/// Keyword-set shapes such as `x(ac|ad|be)|y(ac|bd|be)`: 1-3 heads, each followed by an
+/// alternation of 2-4 words of 2-3 letters over tiny per-position alphabets; in half of the cases
+/// every further head gets a NEAR TWIN of the first word set (one letter changed, or one word
+/// dropped or doubled). The compiled automata get sibling states whose transitions agree under any
+/// signature that is a little too coarse (class ignored, multiplicity ignored, grouping ignored).
+pub fn gen_word_sets(d: &mut Dec) -> Rx {
+    let lit = |c: char| Rx::Lit(c, LitForm::Verbatim);
+    let alphabets: [&[char]; 3] = [&['a', 'b'], &['c', 'd', 'e'], &['a', 'c', 'x']];
+    let heads = 1 + d.below(3);
+    let three = d.chance(64);
+    let twins = d.bool();
+    let gen_words = |d: &mut Dec| -> Vec<Vec<char>> {
+        let n = 2 + d.below(3);
+        (0..n)
+            .map(|_| {
+                let mut w = vec![*d.pick(alphabets[0]), *d.pick(alphabets[1])];
+                if three && d.bool() {
+                    w.push(*d.pick(alphabets[2]));
+                }
+                w
+            })
+            .collect()
+    };
+    let first = gen_words(d);
+    let mut alts = Vec::new();
+    for h in 0..heads {
+        let words = if h == 0 {
+            first.clone()
+        } else if twins {
+            let mut w = first.clone();
+            match d.weighted(&[6, 1, 1]) {
+                0 => {
+                    let i = d.below(w.len());
+                    let j = d.below(w[i].len());
+                    w[i][j] = *d.pick(alphabets[j]);
+                }
+                1 if w.len() > 1 => {
+                    let i = d.below(w.len());
+                    w.remove(i);
+                }
+                _ => {
+                    let i = d.below(w.len());
+                    let x = w[i].clone();
+                    w.push(x);
+                }
+            }
+            w
+        } else {
+            gen_words(d)
+        };
+        let body = Rx::Group(
+            Box::new(Rx::Alt(
+                words
+                    .iter()
+                    .map(|w| Rx::Concat(w.iter().map(|c| lit(*c)).collect()))
+                    .collect(),
+            )),
+            GroupKind::NonCapture,
+        );
+        if heads == 1 && d.bool() {
+            alts.push(body);
+        } else {
+            alts.push(Rx::Concat(vec![lit(['x', 'y', 'z'][h]), body]));
+        }
+    }
+    if alts.len() == 1 {
+        alts.pop().unwrap()
+    } else {
+        Rx::Alt(alts)
+    }
+}
+
 pub fn gen_pattern_rx(d: &mut Dec, p: &GenParams) -> Rx {
+    if d.chance(8) {
+        return gen_word_sets(d);
+    }
     let depth = 1 + d.below(p.max_depth);
     let mut budget = p.max_nodes;
     gen_rx(d, p, depth, &mut budget)
